@@ -43,6 +43,8 @@ QUICK = [
     # an interval in which no asset is active at all (all assets start later / end earlier): the split problem is the unsplit one
     _c('first_interval_without_any_asset', 'windows', dict(T=4, wins=((2, 4), (2, 4), (3, 4))), '2h'),
     _c('middle_interval_without_any_asset', 'windows', dict(T=6, wins=((0, 2), (0, 1), (4, 6), (5, 6))), '2h'),
+    _c('scaled_contract_fixed_scale', 'scaled', dict(T=4, base='contract', fixed=True), '2h'),
+    _c('scaled_transport_fixed_scale_three_intervals', 'scaled', dict(T=6, base='transport', fixed=True), '2h'),
     _c('take_spans_intervals', 'uncoupled', dict(T=4, take=(1, 4)), '2h', True),
     _c('take_spans_intervals_asset_with_own_dates', 'uncoupled', dict(T=4, take=(0, 4), own_dates=True), '2h', True),
     _c('orderbook_last_trailing', 'orderbook', dict(T=4, storage=False, ob_last=True, orders=((0, 1, 2.0), (2, 4, -1.5), (3, 4, 1.0))), '2h'),
